@@ -1222,7 +1222,10 @@ class Engine:
         return ('seeded random histories of {ITER, COUNTS, RATES, SPATIAL, MAGS, NCAT, each catalog-based test} '
                 'on a CatalogForecast in a drawn configuration (in-memory list | streamed file with store on/off '
                 'through a counting loader, filters on/off given to the constructor or assigned, spatial filter, '
-                'n_cat given or not, file encoding variants, time zone); a case is distinct by the digest of '
+                'n_cat given or not, file encoding variants, time zone; in-memory catalogs bound to no region, the forecast '
+                'region, a larger one, the same cells in another order or with other magnitude bins; catalogs and observed '
+                'catalogs that were gridded elsewhere before); every result the caller holds is re-read after each later op '
+                '(result stability); a case is distinct by the digest of '
                 '(configuration, catalog sizes, op sequence, region shape) and non-trivial when it has >= 2 ops and '
                 'at least one synthetic event')
 
